@@ -1,21 +1,30 @@
-"""C01 — compute_features returns a complete, ordered, gap-free segmentation (pipeline model Model/Features.v)."""
+"""C01 — compute_features / Bycycle.fit return a complete, ordered, gap-free segmentation (pipeline model Model/Features.v)."""
 from harness import pipeline
-from harness.pipeline import COQ_HEADER, COQ_RUNNER, COQ_TYPES, SHARD, coq_case, kind_of, TRUST
+from harness.pipeline import COQ_HEADER, COQ_RUNNER, COQ_TYPES, SHARD, coq_case, kind_of, extra_evidence, TRUST
 
 PROP = 'C01'
 PROPS_FILE = 'Props/C01.v'
-RULE = ('compute_features on generated signals (11 kinds x 8 sampling rates, 150-480 samples, >= 7 cycles) over the option '
-        'grid centre x burst method x return_samples x find_extrema_kwargs {None, boundary, n_cycles, n_seconds, pad} x '
-        'threshold / burst options; every sample column, feature column, label and the row count compared with the Coq '
-        'pipeline model; statement oracle checks ordering, bounds, tiling. non-trivial = table with >= 3 rows')
+RULE = ('compute_features on generated signals (12 kinds x 8 sampling rates, 150-480 samples, >= 7 cycles; ~20 % with a band '
+        'that misses the rhythm / a narrow / a wide band, ~15 % non-integer or float fs, f_range as list or tuple, ~10 % int64 '
+        'and ~6 % float32 samples) over the option grid centre x burst method x return_samples x find_extrema_kwargs {None, '
+        'boundary, n_cycles, n_seconds, pad} x threshold / burst options (including empty dictionaries); every 4th case '
+        'also through Bycycle(...).fit / df_features with the same option objects. Every sample column, feature column, label '
+        'and the row count compared with the Coq pipeline model (float32 cases: statement oracle only; kind suffix /model-void '
+        '= model answers EDegenerate, comparison void); the column set, the return_samples=False table and the Bycycle.fit '
+        'table are compared with the documented set / the compute_features table at harness level (reported through the '
+        'model comparison). Statement oracle: table instead of raising when the reference band-pass has >= 3 full '
+        'oscillations beyond the boundary; one row per cycle of the reference band-pass (closed half-waves whose raw '
+        'extremum survives the boundary) with every row inside its own half-waves; ordering, bounds, tiling; the same on '
+        'the Bycycle.fit table. non-trivial = table with >= 3 rows')
 ASSUMPTIONS = ['signals finite, longer than the filter, >= 3 oscillations in band',
                'library-level exceptions cannot be exhibited by the model: "returns a table instead of raising" is '
-               'established for the real code only on the explored grid']
+               'established for the real code only on the explored grid',
+               'row-count clause skipped when survival of an extremum at the boundary depends on tie resolution']
 
 
 def cases(rng, tier):
-    n = 140 if tier == 'quick' else 1400
-    return [pipeline.gen_case(rng, tier) for _ in range(n)]
+    n = 150 if tier == 'quick' else 1500
+    return [pipeline.gen_case(rng, tier, wide=True, f32=True, extra={'fit': i % 4 == 0}) for i in range(n)]
 
 
 run_impl = pipeline.run_pipe
